@@ -70,7 +70,7 @@ def run(ck):
         ck.enum(exe, ["--part=edit"], "edit", batch=300, deadline_s=_left(ck, budget), timeout_ms=10000, jobs=J)
         ck.enum(exe, ["--part=tok", "--tok-len=4"], "tok4", batch=500, deadline_s=_left(ck, budget), timeout_ms=10000, jobs=J)
         ck.enum(exe, ["--part=class", "--class-len=3"], "class3", batch=400, deadline_s=_left(ck, budget), timeout_ms=10000, jobs=J)
-        ck.enum(exe, ["--part=class", "--class-len=4", "--class-min=4"], "class4", batch=600, deadline_s=min(_left(ck, budget), 900), timeout_ms=10000, jobs=J)
+        ck.enum(exe, ["--part=class", "--class-len=4", "--class-min=4"], "class4", batch=600, deadline_s=min(_left(ck, budget), 1250), timeout_ms=10000, jobs=J)
         ck.enum(exe, ["--part=tok", "--tok-len=5", "--tok-min=5"], "tok5", batch=600, deadline_s=_left(ck, budget), timeout_ms=10000, jobs=J)
     done = {p["part"]: (p.get("evaluations"), p.get("total"), p.get("exhaustive")) for p in ck.parts}
     ck.finish(vlib.enum_coverage(ck.parts, RULE, "nontrivial",
